@@ -18,4 +18,5 @@ CONSTANTS
   HostileSteps = 1
   AllScopes = FALSE
   GenWhat = {"checkerops", "checkerlist", "selectlist", "selectops"}
+  GenFull = FALSE
 CHECK_DEADLOCK FALSE
